@@ -167,7 +167,8 @@ class Sim:
             elif k == "hb":
                 fr = refs.frame("0", n, w.T, w.S)
             elif k == "tr":
-                fr = refs.frame("1", n, w.T, w.S, [(112, "T")])
+                # TestReqID in a single-byte charset (not valid utf-8) with '=' inside: the echo must still be a frame
+                fr = refs.frame("1", n, w.T, w.S, [(112, b"PING=\xe9\xfc")])
             elif k == "gap_app":
                 n = self.peer_seq + 2
                 fr = refs.frame("D", n, w.T, w.S, [(11, f"q{self.uid}")])
